@@ -67,6 +67,9 @@ pub enum SynthBlock {
     Rle { byte: u8, len: u32 },
     /// compressed block, RLE-mode tables; `extras[i] = [of_extra, ml_extra, ll_extra]`
     Seq { lits: SynthLits, ll_code: u8, ml_code: u8, of_code: u8, extras: Vec<[u32; 3]> },
+    /// compressed block whose sequences use Predefined_Mode for all three tables (FSE-coded by the harness' own
+    /// encoder, fsepre.rs); `seqs[i] = [literal length, match length, offset value]`
+    SeqPre { lits: SynthLits, seqs: Vec<[u32; 3]> },
 }
 
 #[derive(Clone, Debug, PartialEq, Serialize, Deserialize)]
@@ -86,6 +89,8 @@ pub enum ModelError {
     /// a block larger than Block_Maximum_Size = min(window, 128 KiB) but not above 128 KiB: non-conforming, yet not
     /// something C05 demands to be rejected
     BlockAboveWindowLimit,
+    /// the spec cannot be expressed by the builder (e.g. a code outside the predefined tables)
+    Unsupported,
 }
 
 /// forward little-endian bit writer
@@ -201,6 +206,25 @@ pub fn block_body(b: &SynthBlock) -> (u8, u32, Vec<u8>) {
             let sz = body.len() as u32;
             (2, sz, body)
         }
+        SynthBlock::SeqPre { lits, seqs } => {
+            let mut body = Vec::new();
+            match lits {
+                SynthLits::Raw { len, .. } => {
+                    lits_header(&mut body, false, *len);
+                    body.extend_from_slice(&lits.bytes());
+                }
+                SynthLits::Rle { byte, len } => {
+                    lits_header(&mut body, true, *len);
+                    body.push(*byte);
+                }
+            }
+            let triples: Vec<(u32, u32, u32)> = seqs.iter().map(|s| (s[0], s[1], s[2])).collect();
+            // codes outside the predefined tables cannot be expressed: emit a (harmless) zero-sequence section; the model
+            // flags such a spec as unsupported so that it is never used
+            body.extend_from_slice(&crate::fsepre::encode_predefined(&triples).unwrap_or_else(|| vec![0]));
+            let sz = body.len() as u32;
+            (2, sz, body)
+        }
     }
 }
 
@@ -222,88 +246,101 @@ pub fn model(spec: &SynthSpec, dict: &[u8], rep_init: [u32; 3], window: u64) -> 
             SynthBlock::Raw { seed, len } => out.extend_from_slice(&raw_block_bytes(*seed, *len)),
             SynthBlock::Rle { byte, len } => out.extend(std::iter::repeat(*byte).take(*len as usize)),
             SynthBlock::Seq { lits, ll_code, ml_code, of_code, extras } => {
-                let block_start = out.len();
-                let l = lits.bytes();
-                let mut lp = 0usize;
                 let (llb, _) = LL_BASE[(*ll_code as usize).min(35)];
                 let (mlb, _) = ML_BASE[(*ml_code as usize).min(52)];
-                for e in extras {
-                    let ll = (llb + e[2]) as usize;
-                    let ml = (mlb + e[1]) as usize;
-                    let ofv = (1u64 << *of_code) + e[0] as u64;
-                    if lp + ll > l.len() {
-                        return Err(ModelError::LiteralsExhausted);
-                    }
-                    out.extend_from_slice(&l[lp..lp + ll]);
-                    lp += ll;
-                    let offset: u64;
-                    if ofv > 3 {
-                        offset = ofv - 3;
-                        rep = [offset as u32, rep[0], rep[1]];
-                    } else if ll > 0 {
-                        match ofv {
-                            1 => offset = rep[0] as u64,
-                            2 => {
-                                offset = rep[1] as u64;
-                                rep = [rep[1], rep[0], rep[2]];
-                            }
-                            _ => {
-                                offset = rep[2] as u64;
-                                rep = [rep[2], rep[0], rep[1]];
-                            }
-                        }
-                    } else {
-                        match ofv {
-                            1 => {
-                                offset = rep[1] as u64;
-                                rep = [rep[1], rep[0], rep[2]];
-                            }
-                            2 => {
-                                offset = rep[2] as u64;
-                                rep = [rep[2], rep[0], rep[1]];
-                            }
-                            _ => {
-                                if rep[0] <= 1 {
-                                    return Err(ModelError::ZeroOffset);
-                                }
-                                offset = rep[0] as u64 - 1;
-                                rep = [offset as u32, rep[0], rep[1]];
-                            }
-                        }
-                    }
-                    if offset == 0 {
-                        return Err(ModelError::ZeroOffset);
-                    }
-                    let have = out.len() as u64;
-                    if offset > have {
-                        // reaches into the dictionary: only while output so far (before this match) <= window
-                        let need = offset - have;
-                        if need as usize > dict.len() {
-                            return Err(ModelError::OffsetBeyondData);
-                        }
-                        if have > window {
-                            return Err(ModelError::OffsetBeyondWindow);
-                        }
-                    } else if offset > window {
-                        return Err(ModelError::OffsetBeyondWindow);
-                    }
-                    if out.len() - block_start + ml > crate::walker::BLOCK_MAX {
-                        return Err(ModelError::BlockTooBig);
-                    }
-                    for _ in 0..ml {
-                        let pos = out.len() as i64 - offset as i64;
-                        let byte = if pos >= 0 { out[pos as usize] } else { dict[(dict.len() as i64 + pos) as usize] };
-                        out.push(byte);
-                    }
+                let triples: Vec<[u32; 3]> = extras.iter().map(|e| [llb + e[2], mlb + e[1], ((1u64 << *of_code) + e[0] as u64).min(u32::MAX as u64) as u32]).collect();
+                exec_block(&mut out, &lits.bytes(), &triples, &mut rep, dict, window)?;
+            }
+            SynthBlock::SeqPre { lits, seqs } => {
+                let triples: Vec<(u32, u32, u32)> = seqs.iter().map(|s| (s[0], s[1], s[2])).collect();
+                if seqs.iter().any(|s| s[1] < 3 || s[2] == 0) || crate::fsepre::encode_predefined(&triples).is_none() {
+                    return Err(ModelError::Unsupported);
                 }
-                out.extend_from_slice(&l[lp..]);
-                if out.len() - block_start > crate::walker::BLOCK_MAX {
-                    return Err(ModelError::BlockTooBig);
-                }
+                exec_block(&mut out, &lits.bytes(), seqs, &mut rep, dict, window)?;
             }
         }
     }
     Ok(out)
+}
+
+/// execute one compressed block's sequences `[ll, ml, offset value]` on the byte history
+fn exec_block(out: &mut Vec<u8>, l: &[u8], seqs: &[[u32; 3]], rep: &mut [u32; 3], dict: &[u8], window: u64) -> Result<(), ModelError> {
+    let block_start = out.len();
+    let mut lp = 0usize;
+    for e in seqs {
+        let ll = e[0] as usize;
+        let ml = e[1] as usize;
+        let ofv = e[2] as u64;
+        if lp + ll > l.len() {
+            return Err(ModelError::LiteralsExhausted);
+        }
+        out.extend_from_slice(&l[lp..lp + ll]);
+        lp += ll;
+        let offset: u64;
+        if ofv > 3 {
+            offset = ofv - 3;
+            *rep = [offset as u32, rep[0], rep[1]];
+        } else if ll > 0 {
+            match ofv {
+                1 => offset = rep[0] as u64,
+                2 => {
+                    offset = rep[1] as u64;
+                    *rep = [rep[1], rep[0], rep[2]];
+                }
+                _ => {
+                    offset = rep[2] as u64;
+                    *rep = [rep[2], rep[0], rep[1]];
+                }
+            }
+        } else {
+            match ofv {
+                1 => {
+                    offset = rep[1] as u64;
+                    *rep = [rep[1], rep[0], rep[2]];
+                }
+                2 => {
+                    offset = rep[2] as u64;
+                    *rep = [rep[2], rep[0], rep[1]];
+                }
+                _ => {
+                    if rep[0] <= 1 {
+                        return Err(ModelError::ZeroOffset);
+                    }
+                    offset = rep[0] as u64 - 1;
+                    *rep = [offset as u32, rep[0], rep[1]];
+                }
+            }
+        }
+        if offset == 0 {
+            return Err(ModelError::ZeroOffset);
+        }
+        let have = out.len() as u64;
+        if offset > have {
+            // reaches into the dictionary: only while output so far (before this match) <= window
+            let need = offset - have;
+            if need as usize > dict.len() {
+                return Err(ModelError::OffsetBeyondData);
+            }
+            if have > window {
+                return Err(ModelError::OffsetBeyondWindow);
+            }
+        } else if offset > window {
+            return Err(ModelError::OffsetBeyondWindow);
+        }
+        if out.len() - block_start + ml > crate::walker::BLOCK_MAX {
+            return Err(ModelError::BlockTooBig);
+        }
+        for _ in 0..ml {
+            let pos = out.len() as i64 - offset as i64;
+            let byte = if pos >= 0 { out[pos as usize] } else { dict[(dict.len() as i64 + pos) as usize] };
+            out.push(byte);
+        }
+    }
+    out.extend_from_slice(&l[lp..]);
+    if out.len() - block_start > crate::walker::BLOCK_MAX {
+        return Err(ModelError::BlockTooBig);
+    }
+    Ok(())
 }
 
 pub fn build(spec: &SynthSpec, dict: &[u8], rep_init: [u32; 3]) -> Built {
@@ -406,7 +443,7 @@ pub fn build(spec: &SynthSpec, dict: &[u8], rep_init: [u32; 3]) -> Built {
             let stored = if ty == 1 { size as usize } else { body.len() };
             let regen = match b {
                 SynthBlock::Raw { len, .. } | SynthBlock::Rle { len, .. } => *len as usize,
-                SynthBlock::Seq { .. } => seq_block_out_len(b),
+                SynthBlock::Seq { .. } | SynthBlock::SeqPre { .. } => seq_block_out_len(b),
             };
             if stored > bmax || regen > bmax {
                 expect = Err(ModelError::BlockAboveWindowLimit);
@@ -477,7 +514,11 @@ pub fn gen_valid(r: &mut Rng, max_out: usize) -> SynthSpec {
         } else if kind < 4 && bi + 1 == nblocks {
             blocks.push(SynthBlock::Raw { seed: 0, len: 0 });
         } else {
-            let b = gen_seq_block(r, produced, window, budget.min(window).min(crate::walker::BLOCK_MAX));
+            let b = if r.chance(1, 3) {
+                gen_seqpre_block(r, produced, window, budget.min(window).min(crate::walker::BLOCK_MAX))
+            } else {
+                gen_seq_block(r, produced, window, budget.min(window).min(crate::walker::BLOCK_MAX))
+            };
             produced += seq_block_out_len(&b);
             blocks.push(b);
         }
@@ -502,8 +543,51 @@ fn seq_block_out_len(b: &SynthBlock) -> usize {
             let (mlb, _) = ML_BASE[(*ml_code as usize).min(52)];
             lits.len() as usize + extras.iter().map(|e| (mlb + e[1]) as usize).sum::<usize>()
         }
+        SynthBlock::SeqPre { lits, seqs } => lits.len() as usize + seqs.iter().map(|s| s[1] as usize).sum::<usize>(),
         SynthBlock::Raw { len, .. } | SynthBlock::Rle { len, .. } => *len as usize,
     }
+}
+
+/// a compressed block with predefined-mode (FSE-coded) sequences and `history` bytes before it; the model is the judge
+pub fn gen_seqpre_block(r: &mut Rng, history: usize, window: usize, budget: usize) -> SynthBlock {
+    let nseq = match r.below(6) {
+        0 => 1usize,
+        1 => r.urange(2, 5),
+        2 => r.urange(50, 200),
+        _ => r.urange(1, 30),
+    };
+    let mut seqs = Vec::new();
+    let mut out = 0usize;
+    let mut lit_needed = 0usize;
+    let mut have = history;
+    for _ in 0..nseq {
+        let ll = match r.below(4) {
+            0 => 0u32,
+            1 => r.urange(1, 15) as u32,
+            2 => r.urange(16, 300) as u32,
+            _ => r.urange(0, 40) as u32,
+        };
+        let ml = match r.below(4) {
+            0 => 3u32,
+            1 => r.urange(3, 34) as u32,
+            2 => r.urange(35, 2000) as u32,
+            _ => r.urange(3, 130) as u32,
+        };
+        if out + (ll + ml) as usize > budget {
+            break;
+        }
+        let reach = (have + ll as usize).min(window);
+        // repeat codes (offset values 1..3) or a real offset within reach
+        let ofv = if reach == 0 || r.chance(1, 5) { r.urange(1, 3) as u32 } else { 3 + r.urange(1, reach) as u32 };
+        seqs.push([ll, ml, ofv]);
+        out += (ll + ml) as usize;
+        have += (ll + ml) as usize;
+        lit_needed += ll as usize;
+    }
+    let tail = r.size_log(budget.saturating_sub(out).min(64));
+    let lit_len = (lit_needed + tail) as u32;
+    let lits = if r.chance(1, 4) { SynthLits::Rle { byte: r.byte(), len: lit_len } } else { SynthLits::Raw { seed: r.next_u64(), len: lit_len } };
+    SynthBlock::SeqPre { lits, seqs }
 }
 
 /// a compressed block with `history` bytes before it; tries to stay valid (the model is the judge)
